@@ -130,10 +130,10 @@ PROPS = {
         "design_ref": "DESIGN.md 7 C19",
     },
     "C20": {
-        "families": ["tuplefn"],
-        "level": "pair/tuple values, swap and lexicographic relations over fully symbolic operands; invoke/reference_wrapper/function_ref/bind_front/not_fn call the target exactly once with the same argument values; inplace_function state machine from every well-formed state",
-        "note": "value categories and decltype facts are type-level and outside the technique",
-        "not_covered": ["value-category preservation, reference collapsing of forward/forward_like (type-level)"],
+        "families": ["tuplefn", "lifetime"],
+        "level": "pair/tuple values, swap and lexicographic relations over fully symbolic operands; invoke/reference_wrapper/function_ref/bind_front/not_fn call the target exactly once with the same argument values; inplace_function state machine from every well-formed state, for trivially copyable callables (tuplefn) and for an instrumented non-trivially copyable callable whose move marks its source (lifetime n_* groups); value categories of get/apply/make_from_tuple and of pair/tuple copy and move as far as they are observable through a move-marking element type",
+        "note": "decltype facts (the declared return types themselves) are type-level and outside the technique; what a wrong value category DOES (copy instead of move, wrong overload chosen) is checked",
+        "not_covered": ["declared types / reference collapsing of forward, forward_like, tuple_element (type-level)", "value categories of invoke/bind_front/not_fn argument forwarding beyond the argument values"],
         "design_ref": "DESIGN.md 7 C20",
     },
 }
